@@ -20,7 +20,7 @@ EvOf(S) == {p[2] : p \in S}
 InNoHistory(o, e) == \A b \in DOMAIN o.hist : ~InSeq(e, o.hist[b])
 SomeBounded(cfg) == \E b \in BusNames(cfg) : MaxHist(cfg, b) > 0
 
-CompletionClauses == {"C03.hang", "C03.incomplete", "C03.not_completed", "C10.incomplete", "C04.incomplete"}
+CompletionClauses == {"C03.hang", "C03.incomplete", "C03.not_completed", "C10.incomplete", "C04.incomplete", "C04.raised"}
 
 Classify(cfg, o, w) ==
   CASE w.c = "C05.unrelated" /\ w.k = "in"                                   -> "F0"
